@@ -469,12 +469,9 @@ func C08Cases(tier string, seed int64) []Case {
 				func(e *SymEnv) { c08OrHetero(e, f, bb) }, fmt.Sprintf("C08.sigor-cartesian[batchFirst=%v,b=%d]/or-done", bf, b)))
 		}
 	}
-	for _, bf := range []bool{true, false} {
-		for b := 0; b < 2; b++ {
-			f, bb := bf, b
-			cases = append(cases, mk(fmt.Sprintf("C08/or-cartesian/batchFirst=%v/b=%d", bf, b), map[string]any{"protocol": "sigor.CartesianCompose(batch_schnorr[k=2], schnorr) — different challenge lengths", "batch first": bf, "witness for branch": b},
-				func(e *SymEnv) { c08OrHetero(e, f, bb) }, fmt.Sprintf("C08.sigor-cartesian[batchFirst=%v,b=%d]/or-done", bf, b)))
-		}
-	}
+	cases = append(cases, mk("C08/elgamal/elcomop", map[string]any{"protocol": "elcomop: knowledge of the opening of an ElGamal commitment (Maurer09 instance over G×F → G²)", "key, opening, offsets": "symbolic"},
+		c08Elcomop, "C08.elcomop/done"))
+	cases = append(cases, mk("C08/elgamal/elog", map[string]any{"protocol": "elog: elcomop ∧ Schnorr (committed element is g^y and Y = h^y)", "key, y, λ, h, offsets": "symbolic"},
+		c08Elog, "C08.elog/done"))
 	return cases
 }
